@@ -77,12 +77,28 @@ Theorem C12_info_once :
 Proof. exact info_once. Qed.
 Print Assumptions C12_info_once.
 
-(* Retry-delay loop, for the regenerated table: Stop pauses both delay clocks and acknowledges,
-   Continue resumes both, an unmatched Continue changes nothing, nothing panics (finite check of
-   the three arm evaluations; the dispatcher alternates Stop and Continue). *)
-Theorem C12_delay_loop_pauses : dcert pause_table = true.
-Proof. exact delay_cert. Qed.
-Print Assumptions C12_delay_loop_pauses.
+(* Retry-delay loop (handle_delay_between_attempts), for the table read from the current source:
+   no sequence of requests the dispatcher can produce makes it fail internally, ... *)
+Theorem C12_delay_loop_no_internal_failure :
+  forall delay es, denv_trace JNone es = true -> drun pause_table (dinit delay) es <> Panicked.
+Proof.
+  intros delay es. apply (delay_no_panic pause_table delay_cert es (dinit delay) JNone).
+  apply dinit_inv.
+Qed.
+Print Assumptions C12_delay_loop_no_internal_failure.
+
+(* ... and at every state reachable that way (invariant [dinv]) a Stop pauses both delay clocks and
+   is acknowledged, a Continue leaves both running. *)
+Theorem C12_delay_loop_pause_resume :
+  forall s j e, dinv s j -> denv_ok j e = true ->
+  exists r, dstep pause_table s e = Ok r /\ dinv (fst r) (denv_next j e) /\
+    (d_done s = false -> e = DReq RStop ->
+       lpaused (k_dsl (d_ck (fst r))) = true /\ spaused (k_dwsw (d_ck (fst r))) = true /\
+       acked (snd r) = true) /\
+    (d_done s = false -> e = DReq RContinue ->
+       lpaused (k_dsl (d_ck (fst r))) = false /\ spaused (k_dwsw (d_ck (fst r))) = false).
+Proof. exact (dstep_sound pause_table delay_cert). Qed.
+Print Assumptions C12_delay_loop_pause_resume.
 
 (* A stop / continue pair is invisible to a running unit: Stop, any amount of stopped time,
    Continue bring it back to exactly the same state (the group sees SIGTSTP, SIGCONT; the stop is
